@@ -208,7 +208,16 @@ func runC12(c *core.Ctx) {
 		}
 	}
 	// R3 actor identity
-	if run := p.Method(p.Fpgo, "ActorDef", "run"); run != nil {
+	// the mailbox loop: the method of ActorDef that calls the effect field (whatever it is named)
+	var run *ssa.Function
+	for _, m := range p.Methods(p.Fpgo, "ActorDef") {
+		core.Instrs(m, func(ins ssa.Instruction) {
+			if call, isC := ins.(*ssa.Call); isC && core.FieldKey(call.Call.Value) == "ActorDef.effect" {
+				run = m
+			}
+		})
+	}
+	if run != nil {
 		ok := false
 		core.Instrs(run, func(ins ssa.Instruction) {
 			if call, isC := ins.(*ssa.Call); isC && core.FieldKey(call.Call.Value) == "ActorDef.effect" && core.FieldBase(call.Call.Value) == run.Params[0].Name() && len(call.Call.Args) == 2 && call.Call.Args[0] == ssa.Value(run.Params[0]) {
@@ -218,7 +227,7 @@ func runC12(c *core.Ctx) {
 		c.Check(ok, "R3", "ActorDef/effect-gets-self", p.Pos(run.Pos()), "effect(actorSelf, message)", "the effect is not called with the actor itself as first argument (replies/Spawn from inside the effect act on another object)")
 	} else {
 		// role based: the receiving method
-		c.Unknown("R3", "ActorDef/effect-gets-self", "-", "run method not found by name")
+		c.Unknown("R3", "ActorDef/effect-gets-self", "-", "no method of ActorDef calls the effect")
 	}
 	// R4 Spawn
 	if sp := p.Method(p.Fpgo, "ActorDef", "Spawn"); sp == nil {
